@@ -1511,7 +1511,7 @@ def bestof_peel(ctx, path, n, rule, need, ob, key, sty, k5v, why):
     def norm(node, X, depth=0):
         """the same value with every branch simplified under the condition that selects it (an index-of-the-best
         formulation repeats `not the earlier test` inside the later tests)"""
-        if depth > 8 or node[0] != "ite" or id(X) not in under(node):
+        if depth > 40 or node[0] != "ite" or id(X) not in under(node):
             return node
         c = node[1]
         a = substitute(node[2], lambda nd: TRUE if nd is c else None)
@@ -1643,10 +1643,12 @@ def bestof_peel(ctx, path, n, rule, need, ob, key, sty, k5v, why):
             else:
                 msg = "the reported value is not a decision list over the candidates' rankings (witness clauses cannot be read off this shape)"
                 okW = None
-        if okW is None or (okS and not okW and "decision list" in msg):
-            ob("witness-follows-value", short(path), False, "UNCERTIFIED: " + msg, where)
+        if okW:
+            ob("witness-follows-value", short(path), True)
         else:
-            ob("witness-follows-value", short(path), bool(okW), msg, where)
+            # not identical in structure is not a counterexample: the end-to-end fold that follows looks for one;
+            # without one the clause stays uncertified for this shape
+            ob("witness-follows-value", short(path), False, "UNCERTIFIED: " + msg + " (structural comparison only; see the end-to-end witness fold for a counterexample)", where)
         # candidates name five distinct slots
         ob("candidate-distinct-slots", short(path), all(len(set(r)) == 5 for r in rows.values()), "a ranked candidate repeats a slot of the hand", where)
     rep.note("%s: %s::hand_rank_value_and_hand is not a single candidate loop (%s); value clauses decided by peeling the returned value into %d best-so-far updates" % (rule, short(path), why, steps))
